@@ -183,6 +183,7 @@ class AIPTW:
         self._exp_model = self.exposure + ' ~ ' + model
 
         if custom_model is None:
+            self._exp_model_custom = False
             d, n, iptw = iptw_calculator(df=self.df, treatment=self.exposure, model_denom=model, model_numer='1',
                                          weight=self._weight_, stabilized=False, standardize='population',
                                          bound=None, print_results=print_results)
@@ -258,6 +259,7 @@ class AIPTW:
         fitmodel = propensity_score(self.df, self._miss_model, weights=self._weight_, print_results=print_results)
 
         if custom_model is None:  # Logistic Regression model for predictions
+            self._miss_model_custom = False
             dfx = self.df.copy()
             dfx[self.exposure] = 1
             m1w = np.where(self.df[self._missing_indicator] == 1, fitmodel.predict(dfx), np.nan)
@@ -324,6 +326,7 @@ class AIPTW:
         self._out_model = self.outcome + ' ~ ' + model
 
         if custom_model is None:
+            self._out_model_custom = False
             if self._continuous_outcome:
                 self._continuous_type = continuous_distribution
                 if (continuous_distribution == 'gaussian') or (continuous_distribution == 'normal'):
